@@ -499,9 +499,9 @@ def chk_orbit(ctx, els):
         """eci2coe returns the *eastward* longitude (of periapsis / true) although coe2eci at i = pi turns clockwise."""
         def k(tol):
             if retro_eq:
-                sig = (sma, e, inc, 0.0, raan - argp, nu) if e >= E_LIM else (sma, e, inc, 0.0, 0.0, raan - argp - nu)
-                if _serr(x, kr.state_from_coe(*sig)) <= max(tol, 1e-9) + 4.0 * apx:
-                    return "coe-roundtrip-retrograde-equatorial"
+                for sig in ((sma, e, inc, 0.0, raan - argp, nu), (sma, e, inc, 0.0, 0.0, raan - argp - nu)):   # eccentric / circular form
+                    if _serr(x, kr.state_from_coe(*sig)) <= max(tol, 1e-9) + 4.0 * apx + 4.0 * (e if e < 2 * E_LIM else 0.0):
+                        return "coe-roundtrip-retrograde-equatorial"
             return generic + sfx
         return k
 
